@@ -446,12 +446,14 @@ class Heap:
         self.lists = {}
         self.objs = {}
         self.rags = {}
+        self.origins = {}     # list ref -> z3 array: position -> index in the list it was selected from (filter comprehensions, their concatenations)
         self.next_ref = [1]
 
     def copy(self):
         h = Heap.__new__(Heap)
         h.lists = dict(self.lists)
         h.rags = dict(getattr(self, 'rags', {}))
+        h.origins = dict(getattr(self, 'origins', {}))
         h.objs = {k: dict(v) for k, v in self.objs.items()}
         h.next_ref = self.next_ref  # shared counter: refs stay globally unique
         return h
